@@ -9,6 +9,7 @@ package dnsserver
 
 import (
 	"context"
+	"crypto/sha256"
 	"encoding/binary"
 	"encoding/hex"
 	"fmt"
@@ -24,13 +25,12 @@ import (
 	"verif.local/harness/vwire"
 )
 
-func vc06Chunks(s string) (out []string) {
-	for len(s) > 200 {
-		out = append(out, s[:200])
-		s = s[200:]
-	}
+// vc06Digest keeps the echoed description short enough for a 512-octet UDP
+// response; any difference in the decoded request changes it.
+func vc06Digest(desc string) string {
+	sum := sha256.Sum256([]byte(desc))
 
-	return append(out, s)
+	return hex.EncodeToString(sum[:])
 }
 
 // vc06EchoHandler answers with a TXT record that describes the request exactly
@@ -40,7 +40,7 @@ func vc06EchoHandler() Handler {
 		resp := (&dns.Msg{}).SetReply(req)
 		resp.Answer = []dns.RR{&dns.TXT{
 			Hdr: dns.RR_Header{Name: req.Question[0].Name, Rrtype: dns.TypeTXT, Class: dns.ClassINET, Ttl: 1},
-			Txt: vc06Chunks(hex.EncodeToString([]byte(vwire.Describe(req, nil)))),
+			Txt: []string{vc06Digest(vwire.Describe(req, nil))},
 		}}
 
 		return rw.WriteMsg(ctx, req, resp)
@@ -61,7 +61,7 @@ func vc06Expect(wire []byte) string {
 	case len(m.Question) != 1, len(m.Answer) > 1, len(m.Ns) > 1:
 		return fmt.Sprintf("rcode=%d", dns.RcodeFormatError)
 	default:
-		return "echo:" + vwire.Describe(m, nil)
+		return "echo:" + vc06Digest(vwire.Describe(m, nil))
 	}
 }
 
@@ -72,12 +72,7 @@ func vc06Got(resp *dns.Msg) string {
 
 	for _, rr := range resp.Answer {
 		if txt, ok := rr.(*dns.TXT); ok {
-			b, err := hex.DecodeString(strings.Join(txt.Txt, ""))
-			if err != nil {
-				return "echo-undecodable:" + strings.Join(txt.Txt, "")
-			}
-
-			return "echo:" + string(b)
+			return "echo:" + strings.Join(txt.Txt, "")
 		}
 	}
 
